@@ -288,6 +288,10 @@ func (ss *Sorts) Decls() string {
 	sb.WriteString("(declare-fun typeof (Any) Int)\n(declare-const anynil Any)\n(assert (= (typeof anynil) 0))\n")
 	sb.WriteString("(declare-fun strlen (Str) Int)\n(assert (forall ((s Str)) (! (>= (strlen s) 0) :pattern ((strlen s)))))\n")
 	sb.WriteString("(declare-fun strcat (Str Str) Str)\n(declare-fun strlt (Str Str) Bool)\n(declare-fun eqfold (Str Str) Bool)\n")
+	// Go's < on strings is a strict total order
+	sb.WriteString("(assert (forall ((a Str)) (! (not (strlt a a)) :pattern ((strlt a a)))))\n")
+	sb.WriteString("(assert (forall ((a Str) (b Str)) (! (and (=> (strlt a b) (not (strlt b a))) (=> (not (= a b)) (or (strlt a b) (strlt b a)))) :pattern ((strlt a b)))))\n")
+	sb.WriteString("(assert (forall ((a Str) (b Str) (c Str)) (! (=> (and (strlt a b) (strlt b c)) (strlt a c)) :pattern ((strlt a b) (strlt b c)))))\n")
 	sb.WriteString("(assert (forall ((a Str)) (! (eqfold a a) :pattern ((eqfold a a)))))\n")
 	sb.WriteString("(assert (forall ((a Str) (b Str)) (! (= (eqfold a b) (eqfold b a)) :pattern ((eqfold a b)))))\n")
 	return sb.String()
